@@ -750,7 +750,16 @@ func (w *world) Synchronize(ctx context.Context, req *remoteworker.SynchronizeRe
 }
 
 // allowNilReplyToCompleted switches the soundness restriction above off
-// (development aid; see FINDINGS.md, observation O1).
+// (development aid). Observation O1: with it, run_model finds (after ~160k
+// cases) that Run may report may-terminate up to next_sync-now too early:
+// exec; emit 10; finish (Completed blocks on the full channel); Run with a
+// "no desired state" reply (Completed is read before close(updates) is seen,
+// so executionCancellation stays set while the may-think-executing bound is
+// cleared); Run with an RPC error (the update path lowers
+// nextSynchronizationAt to now, and touchSchedulerMayThinkExecuting derives
+// the one-minute grace period from the lowered value); shutdown; advance
+// 64s; Run -> may_terminate=true although now < provided next-sync + 1 min.
+// Unreachable with replies a scheduler actually sends.
 var allowNilReplyToCompleted = os.Getenv("VERIF_C08_NIL_TO_COMPLETED") == "1"
 
 // mayTerminateAllowed is the shutdown oracle: under a cancelled context the
